@@ -238,6 +238,14 @@ func Main(prop string) {
 	}
 	runCase := func(c Case) {
 		t := Execute(prop, c)
+		if os.Getenv("VERIF_DEBUG") != "" {
+			for i, o := range c.Ops {
+				f := strings.Fields(t.Renders[i])
+				if o.K == "B" || t.Errs[i] != "" {
+					fmt.Fprintf(os.Stderr, "step %d %s -> class %s val %s blk %s active %s queued %s err=%q\n", i, o.Line(), f[0], f[1], f[10], f[13], f[14], t.Errs[i])
+				}
+			}
+		}
 		ctx.Cov.Case(c.Line(), t.nontrivial(), nil)
 		report(ctx, prop, t, ask(ctx, c))
 	}
